@@ -73,6 +73,18 @@ func ruleP19AbsentDb(p *Prog, r *Report) {
 			}
 		}
 		r.check(okParse, rule, key+":parse", p.instrPos(read), "the text read is parsed as the database", "the text read from the database is not what is parsed")
+		// reading is reading: the collection is not edited on the way (whatever is dropped here
+		// is lost for good with the next set/unset, which writes back what it read)
+		edited := ""
+		eachVInstr(f, func(in ssa.Instruction) {
+			if c, isC := in.(ssa.CallInstruction); isC && c.Common().IsInvoke() && typeNameOf(c.Common().Value.Type()) == "BookmarksCollection" {
+				switch c.Common().Method.Name() {
+				case "Set", "Remove", "Clear":
+					edited = c.Common().Method.Name() + " at " + p.instrPos(c)
+				}
+			}
+		})
+		r.check(edited == "", rule, key+":read-only", p.instrPos(read), "the collection is handed out as parsed", "reading the bookmark database edits the collection ("+edited+")")
 	}
 	// CreateEmptyFile (bookmarks set --create): failure reported exactly when os.Create failed
 	cf := p.fn("klog/app", "CreateEmptyFile")
